@@ -113,6 +113,28 @@ def run(tier, seed):
                     rep.violation(f"recursion {n} deep through traps neither signalled stackoverflow nor died: {text[:120]}", {"program": tp.format(n=n), "profile": "release", "observed": text[-300:]})
     except InfraError as e:
         rep.notes.append("release trap probe skipped: " + str(e)[:200])
+    # (6) the accumulating functions of the prelude on lists far longer than the depth limit: they are loops, every one must
+    # return its result (release binary; the documented results themselves are C16's business - here only "a value, at constant depth")
+    n6 = 5000 if tier == "quick" else 60000
+    accum = [(f"(length (range {n6}))", str(n6)), (f"(foldl add 0 (range {n6}))", str(n6 * (n6 - 1) // 2)),
+             (f"(foldr (lambda (x acc) (add x acc)) 0 (range {n6}))", str(n6 * (n6 - 1) // 2)), (f"(length (map (lambda (x) (add x 1)) (range {n6})))", str(n6)),
+             (f"(car (reverse (range {n6})))", str(n6 - 1)), (f"(length (zip (range {n6}) (range {n6})))", str(n6)), (f"(length (enumerate (range {n6})))", str(n6)),
+             (f"(last (range {n6}))", str(n6 - 1)), (f"(length (init (range {n6})))", str(n6 - 1)), (f"(apply + (range {n6}))", str(n6 * (n6 - 1) // 2)),
+             (f"(length (foldr cons nil (range {n6})))", str(n6))]
+    aa = run_driver_cases(evalcorr.driver_lines(["(print " + p + ")" for p, _ in accum]), timeout=120.0)
+    rep.evaluations += len(accum)
+    for (p, want), a in zip(accum, aa):
+        rr = dump.split_run_answer(a)
+        got = None
+        if "results" in rr and rr["results"] and rr["results"][-1][0] == "ok":
+            try:
+                got = dump.text_of(dump.parse_dump(rr["results"][-1][1]))
+            except dump.Truncated:
+                got = None
+        if got != want:
+            rep.violation(f"an accumulating prelude function does not run at constant depth on a list of {n6} elements: {p} gives {got if got is not None else a[:160]}",
+                          {"program": p, "env": "p", "expected": want, "observed": a[:300]})
+    rep.coverage["prelude_accumulators"] = len(accum)
     if not rep.violations:
         report_disagreements(rep, sets, "evaluator depth/tail behaviour")
     rep.nontrivial = len(set(small + deep))
